@@ -36,7 +36,7 @@ MCFilter ==
 (* null / duplicate / reordered index vectors are exercised against the      *)
 (* real code, where Trace_Coalescer computes the taken rows from the         *)
 (* logged indices)                                                           *)
-MCIndices == \E k \in 0..MaxN : PushIndices(Fresh(k))
+MCIndices == \E k \in {0, MaxN} : PushIndices(Fresh(k))
 
 MCSetLimit == \E l \in Limits : l # limit /\ SetLimit(l)
 
@@ -46,10 +46,12 @@ MCSpec == MCInit /\ [][MCNext]_vars
 
 Queued == Len(completed) <= MaxQueued
 
-(* ids are renamed by a shift: states that differ only by that shift are    *)
-(* the same state (Fresh depends only on the largest pending id)            *)
-Lo == IF PosIds = {} THEN 0 ELSE (CHOOSE x \in PosIds : \A y \in PosIds : x <= y) - 1
-Sh(s) == [i \in DOMAIN s |-> IF s[i] = 0 THEN 0 ELSE s[i] - Lo]
+(* Row ids only matter up to their relative order: a state is identified by *)
+(* the rank of every id among the ids still pending (in a state satisfying  *)
+(* I3 the ranks are 1..n in order; a lost, duplicated or reordered row      *)
+(* yields a different view and is therefore still visited and checked)      *)
+Rank(x) == IF x = 0 THEN 0 ELSE 1 + Cardinality({y \in PosIds : y < x})
+Sh(s) == [i \in DOMAIN s |-> Rank(s[i])]
 View == <<target, special, limit, everLimited, Sh(buffered),
           [i \in DOMAIN completed |-> [rows |-> Sh(completed[i].rows), kind |-> completed[i].kind]],
           Sh(pending)>>
